@@ -212,7 +212,8 @@ def run_isolated(exe, requests, mem_bytes=2 << 30, timeout_total=900, args=()):
 
 
 def run_driver(requests, timeout=900):
-    return run_stream(DRIVER, requests, timeout=timeout, isolate=True)
+    # memory cap: a request whose honest evaluation is astronomically large must die quickly ('abort'), not eat the machine
+    return run_stream(DRIVER, requests, timeout=timeout, isolate=True, mem_bytes=6 << 30)
 
 
 _built = {}
@@ -236,7 +237,7 @@ def both(run, requests, label, profile="release", isolate=False, canon=None, tim
     if isolate:
         impl = run_isolated(exe, requests, timeout_total=timeout)
     else:
-        impl = run_stream(exe, requests, timeout=timeout, isolate=True)
+        impl = run_stream(exe, requests, timeout=timeout, isolate=True, mem_bytes=6 << 30)
     model = run_driver(requests, timeout=timeout)
     if compare:
         run.correspond(requests, impl, model, canon, label)
@@ -247,7 +248,7 @@ def impl_only(run, requests, profile="release", isolate=False, timeout=1800):
     exe = harness(run, profile)
     if isolate:
         return run_isolated(exe, requests, timeout_total=timeout)
-    return run_stream(exe, requests, timeout=timeout, isolate=True)
+    return run_stream(exe, requests, timeout=timeout, isolate=True, mem_bytes=6 << 30)
 
 
 def replay(prop_id, path, mod):
